@@ -535,9 +535,20 @@ def r8(ctx, F, cfgname):
             elif c.endswith('fs::copy'):
                 n += 1
                 # pre-populated with another file: its length must be set on every way to the rename
+                # (a way around set_len is fine where the two lengths were just found equal: `if .. || old.len() != new.len()`)
+                same_len_edges = set()
+                for bi in cfg.reachable():
+                    for st_ in b.blocks[bi]['stmts']:
+                        rv_ = st_['rv']
+                        if rv_['k'] == 'bin' and rv_['op'] in ('Eq', 'Ne'):
+                            lens = [any(o.kind == 'call' and str(o.key).endswith('::len') for o in fl.origins(x)) or
+                                    any(o.kind == 'op' and o.key == 'PtrMetadata' for o in fl.origins(x)) for x in rv_['ops']]
+                            if all(lens):
+                                oc_ = fl.outcomes(None, st_['dst']['l'])
+                                same_len_edges |= oc_.get('true' if rv_['op'] == 'Eq' else 'false', set())
                 leak = None
                 for rb in renames:
-                    if rb in cfg.reach(cb, cut_blocks=setlens):
+                    if rb in cfg.reach(cb, cut_blocks=setlens, cut_edges=list(same_len_edges)):
                         leak = rb
                 ctx.check(bool(renames) and leak is None, 'C01.R8', key, 'a file that starts as a copy gets its length set before it is published',
                           'sync_files starts the new destination as a copy of an existing file and can publish it without ever setting its length: when the source is '
